@@ -3,7 +3,7 @@ import MakoModel.ModFile.Model
 /-! Driver handler for the module-file model:
 
 `modfile hist <pycOn> <tok>…` - run a history; tokens: `S<mtime>` modify source, `D` delete module,
-`R<src>.<magic>.<mtime>.<size>` replace module (complete), `K<t>` set clock,
+`R<src>.<magic>.<mtime>.<size>.<file>` replace module (complete; file 0 = this template file), `K<t>` set clock,
 `C<f1>/<f2>/<crash>/<s1>/<s2>` construct (fates over `o r s`, `-` = none; crash `n` or a number),
 `H…` same with a `module_writer` that installs what it is given, `N…` with one that does nothing.
 Answer: one record per construct, `;`-separated:
@@ -44,7 +44,7 @@ def encAct : Act → String
   | .unlink i => "unlink" ++ toString i
 
 def encContent (c : Content) : String :=
-  s!"{c.src}:{c.magic}:{if c.complete then 1 else 0}:{c.stamp}"
+  s!"{c.src}:{c.magic}:{if c.complete then 1 else 0}:{c.stamp}:{c.file}"
 
 def encFile : Option File → String
   | none => "none"
@@ -75,9 +75,9 @@ def stepTok (st : World × List String) (tok : String) : Option (World × List S
   | some 'K' => do let t ← body.toNat?; pure (stepH w (.setClock t), out)
   | some 'R' =>
     match body.splitOn "." with
-    | [a, b, c, d] => do
-      let a ← a.toNat?; let b ← b.toNat?; let c ← c.toNat?; let d ← d.toNat?
-      pure (stepH w (.replaceMod ⟨a, b, true, 1000000, d⟩ c), out)
+    | [a, b, c, d, e] => do
+      let a ← a.toNat?; let b ← b.toNat?; let c ← c.toNat?; let d ← d.toNat?; let e ← e.toNat?
+      pure (stepH w (.replaceMod ⟨a, b, true, 1000000, d, e⟩ c), out)
     | _ => none
   | some 'C' => do
     let p ← decPlan body
@@ -104,7 +104,7 @@ def handle : Handler
     let r := verifyDir e f
     pure s!"{r.1} {encBool r.2}"
   | ["consts"] =>
-    pure s!"{magicNumber} {verifyDirMaxTries} {encBool writeLoops} {encBool tmpInTargetDir} {encBool magicRecheck}"
+    pure s!"{magicNumber} {verifyDirMaxTries} {encBool writeLoops} {encBool tmpInTargetDir} {encBool magicRecheck} {encBool fileRecheck} {encBool dropsBytecode}"
   | _ => none
 
 end MakoModel.ModFile.Drv
